@@ -1936,6 +1936,7 @@ func (trp *TableRowProperties) SetTblHeader(isHeader bool) {
 type TableStyle struct {
 	XMLName xml.Name `xml:"w:tblStyle"`
 	Val     string   `xml:"w:val,attr"`
+	Name    string   `xml:"-"` // 样式显示名称（CreateCustomTableStyle 给出），保存时用于在样式表中定义该样式
 }
 
 // TableBorders 表格边框
@@ -2439,6 +2440,9 @@ func (t *Table) CreateCustomTableStyle(styleID, styleName string,
 	err := t.ApplyTableStyle(config)
 	if err != nil {
 		return err
+	}
+	if t.Properties.TableStyle != nil && t.Properties.TableStyle.Val == styleID {
+		t.Properties.TableStyle.Name = styleName
 	}
 
 	// 设置边框
